@@ -131,29 +131,12 @@ func (m *Manager) Run(ctx context.Context, wg *sync.WaitGroup, podResources []da
 // Caller should roll back the allocated resource if any error happen.
 func (m *Manager) Allocate(ctx context.Context, cni *daemon.CNI, req *AllocRequest) (NetworkResources, error) {
 	result := make([]NetworkResource, 0, len(req.ResourceRequests))
-
-	resultCh := make(chan NetworkResources)
-	done := make(chan struct{})
+	// every resource handed over by an interface is kept, even when ctx is done meanwhile,
+	// so that the caller can roll it back
+	var resultLock sync.Mutex
 
 	ctx, cancel := context.WithCancel(ctx)
 	defer cancel()
-
-	go func() {
-		// start a goroutine to collect the result
-		for {
-			select {
-			case <-ctx.Done():
-				close(done)
-				return
-			case resp, ok := <-resultCh:
-				if !ok {
-					close(done)
-					return
-				}
-				result = append(result, resp...)
-			}
-		}
-	}()
 
 	wg := sync.WaitGroup{}
 
@@ -212,20 +195,15 @@ func (m *Manager) Allocate(ctx context.Context, cni *daemon.CNI, req *AllocReque
 					break
 				}
 
-				select {
-				case <-ctx.Done():
-				case resultCh <- resp.NetworkConfigs:
-				}
+				resultLock.Lock()
+				result = append(result, resp.NetworkConfigs...)
+				resultLock.Unlock()
 			}
 		}()
 	}
 	m.Unlock()
 
 	wg.Wait()
-
-	// already send , close it
-	close(resultCh)
-	<-done
 
 	if err == nil && ctx.Err() != nil {
 		err = ctx.Err()
